@@ -63,7 +63,8 @@ def s_case(draw):
     fault = draw(st.one_of(st.none(), st.none(),
                            st.builds(lambda k, b: {"at": "make_tests", "k": k, "base": b}, st.integers(0, 4), st.booleans()),
                            st.builds(lambda k, b: {"at": "result", "k": k, "base": b}, st.integers(0, 12), st.booleans())))
-    return {"suite": suite, "workers": workers, "fault": fault, "wrap_result": draw(st.booleans()),
+    return {"suite": suite, "workers": workers, "fault": fault, "wrap_result": draw(st.sampled_from([False, True, "own_stop"])),
+            "second_run": draw(st.booleans()),
             "schedule": draw(st.lists(st.integers(0, 3), max_size=40))}
 
 
@@ -153,7 +154,8 @@ def execute(spec, schedule=None):
                     result.status(test_id=tid, test_status="inprogress", timestamp=None)
                     result.status(test_id=tid, test_status="success")
                 else:
-                    testtools.PlaceHolder(tid, outcome=H.METHOD[kind]).run(result)
+                    testtools.PlaceHolder(tid, outcome=H.METHOD[kind], tags={"w%d" % self.wid},
+                                          timestamps=(H.ts(100 * self.wid + 2 * i), H.ts(100 * self.wid + 2 * i + 1))).run(result)
             if self.w["raise_after"] is not None and self.w["raise_after"] >= len(self.w["tests"]):
                 raise (RunnerDied if self.w.get("base") else RuntimeError)("runner %d broke" % self.wid)
             sched.yield_point("worker.shouldStop")
@@ -176,7 +178,26 @@ def execute(spec, schedule=None):
 
     def wrap_result(tsr, n):
         wrapped.append(n)
+        if spec.get("wrap_result") == "own_stop":
+            from testtools.testresult.real import TestResultDecorator
+
+            class OwnStop(TestResultDecorator):
+                """A wrapper that keeps its own stop flag (like any TestResult subclass would)."""
+                _stopped = False
+
+                @property
+                def shouldStop(self):
+                    return self._stopped or self.decorated.shouldStop
+
+                def stop(self):
+                    self._stopped = True
+
+                def __hash__(self):
+                    return id(self)
+            return OwnStop(tsr)
         return tsr
+
+    second = {"done": False, "exc": None, "events": None}
 
     def main():
         try:
@@ -185,7 +206,23 @@ def execute(spec, schedule=None):
             else:
                 import unittest
                 suite = ts.ConcurrentTestSuite(unittest.TestSuite(), make_tests, wrap_result if spec["wrap_result"] else None)
-            suite.run(caller)
+            try:
+                suite.run(caller)
+            finally:
+                if spec.get("second_run") and stream:
+                    # the same suite object used again, this time without any fault: a fresh, complete run
+                    rec2 = streams.Recorder()
+                    ok_worker = Worker(90, {"tests": ["success", "failure"], "raise_after": None, "base": False})
+                    suite.make_tests = lambda: [(ok_worker, "again")]
+                    state["second_phase"] = True
+                    try:
+                        suite.run(rec2)
+                    except BaseException as e2:
+                        if isinstance(e2, S.Killed):
+                            raise
+                        second["exc"] = e2
+                    second["done"] = True
+                    second["events"] = [(x["test_id"], x["test_status"], x["route_code"]) for x in rec2.statuses() if x["file_name"] is None]
         except FAULTS as e:
             state["run_exc"] = e
             state["aborted"] = True
@@ -282,6 +319,20 @@ def execute(spec, schedule=None):
                     kind = "lost" if len(mine) < len(want) else ("duplicated" if len(mine) > len(want) else "reordered")
                     vs.append(V("delivery", "classic-" + kind, "worker %d reported %r, caller received %r" % (w.wid, want, mine)))
         if not stream:
+            for e in caller.inner.events:
+                if e[0] in OUTCOMES and e[1].id().startswith("w"):
+                    wid, ti = e[1].id()[1:].split(".t")
+                    if e[2]["tags"] != frozenset(["w" + wid]):
+                        vs.append(V("delivery", "classic-tags", "%s arrived with tags %r, its worker tagged it %r" % (e[1].id(), sorted(e[2]["tags"]), ["w" + wid])))
+                        break
+                    if e[2]["time"] != H.ts(100 * int(wid) + 2 * int(ti) + 1):
+                        vs.append(V("delivery", "classic-time", "%s arrived with time %r, its own end time is %r" % (e[1].id(), e[2]["time"], H.ts(100 * int(wid) + 2 * int(ti) + 1))))
+                        break
+                if e[0] == "startTest" and e[1].id().startswith("w"):
+                    wid, ti = e[1].id()[1:].split(".t")
+                    if e[2]["time"] != H.ts(100 * int(wid) + 2 * int(ti)):
+                        vs.append(V("delivery", "classic-start-time", "%s started at %r in the caller's result, its own start time is %r" % (e[1].id(), e[2]["time"], H.ts(100 * int(wid) + 2 * int(ti)))))
+                        break
             evs = [e for e in caller.inner.events if e[0] in ("startTest", "stopTest") or e[0] in OUTCOMES]
             open_ = None
             for e in evs:
@@ -302,6 +353,11 @@ def execute(spec, schedule=None):
                 vs.append(V("broken-runner", "classic-count", "%d workers raised from run(), %d broken-runner errors reported" % (nbroke, got_broken)))
             if spec["wrap_result"] and sorted(wrapped) != list(range(len(workers))):
                 vs.append(V("wrap_result", "calls", "wrap_result called with %r" % wrapped))
+    if second["done"] and not any(v.clause == "deadlock" for v in vs):
+        want2 = [("w90.t0", "inprogress", "again"), ("w90.t0", "success", "again"), ("w90.t1", "inprogress", "again"), ("w90.t1", "fail", "again")]
+        if second["exc"] is not None or second["events"] != want2:
+            vs.append(V("reuse", "second-run", "a second, fault-free run() of the same suite object raised %r and delivered %r (expected %r)" % (
+                second["exc"], second["events"], want2)))
     stats = {"switches": sched.switches, "fault_fired": bool(fault_fired), "threads": state["threads"], "decisions": len(sched.decisions)}
     return vs, stats, sched.decisions
 
